@@ -357,7 +357,11 @@ func (v *victim) exec(ctx context.Context, f []string) (string, error) {
 			}
 			opt.TXID = ltx.TXID(n)
 		}
-		fc := file.NewReplicaClient(v.cfg.RepPath())
+		rp := v.cfg.RepPath()
+		if sub := kv(f[2:], "rep", ""); sub != "" { // another replica directory under the scenario root (v0.3.x layout)
+			rp = filepath.Join(v.cfg.Dir, sub)
+		}
+		fc := file.NewReplicaClient(rp)
 		fc.SetLogger(quiet)
 		r := litestream.NewReplicaWithClient(nil, fc)
 		return f[1], r.Restore(ctx, opt)
